@@ -42,13 +42,21 @@ def prop(name, getter, cache=True, invby=()):
     return {"name": name, "getter": getter, "cache": cache, "invby": list(invby)}
 
 
-def cls(attrs, frozen=False, dnc=False, key="", props=(), bases=(), plain=False, bootstrap=False):
+def cls(attrs, frozen=False, dnc=False, key="", props=(), bases=(), plain=False, bootstrap=False, frozen_arg=None, post_init=(), post_set=None):
+    """frozen: what the class is (what the model reads); frozen_arg: what its decorator says (None: the same; False: nothing, i.e. inherited)"""
     return {"attrs": attrs, "frozen": frozen, "dnc": dnc, "key": key, "props": list(props), "bases": list(bases), "plain": plain,
-            "bootstrap": bootstrap}
+            "bootstrap": bootstrap, "frozen_arg": frozen if frozen_arg is None else frozen_arg,
+            "post_init": list(post_init), "post_set": list(post_set) if post_set else []}       # __post_init__: read these properties, then self.<a> = FN[f](self.<a>)
+
+
+def inherited(attrs):
+    return [dict(a, inherited=True) for a in attrs]
 
 
 CHILD = cls([attr("v", TINT, "lit", I(0)), attr("ws", TL(TINT), "lit", L(), item="w")])
 KCHILD = cls([attr("k", TSTR), attr("v", TINT, "lit", I(0))], key="k")
+
+FROZEN_BASE = [attr("nums", TL(TINT), "lit", L(), item="num"), attr("n", TINT, "lit", I(0))]
 
 SCENARIOS = {
     "scalars": {"root": "P", "classes": {"P": cls([
@@ -125,6 +133,26 @@ SCENARIOS = {
         "Base": cls([attr("a", TINT, "lit", I(0))], props=[prop("p", "a_plus_10", True, ["a"])]),
         "Sub": cls([dict(attr("a", TINT, "lit", I(0)), inherited=True, redefault=None), attr("c", TINT, "attr", I(2), invby=["a"])],
                    props=[dict(prop("p", "a_plus_10", True, ["a"]), inherited=True), prop("q", "p_times_2", True, ["p"])], bases=["Base"])}},
+    # a frozen class with derived values: copy-on-write helpers thaw a copy, and must still invalidate on it
+    "frozen_inv": {"root": "P", "classes": {"P": cls([
+        attr("a", TINT, "lit", I(0)),
+        attr("c", TINT, "attr", I(2), invby=["a"]),
+    ], frozen=True, props=[prop("p", "a_plus_10", True, ["a"]), prop("q", "p_times_2", True, ["p"]), prop("s", "c_plus_1", True, ["c"])])}},
+    # caches filled and a dependency assigned inside __post_init__ (the constructor's initialisation window is still open there)
+    "inv_post_init": {"root": "P", "classes": {"P": cls([
+        attr("a", TINT, "lit", I(0)),
+        attr("b", TINT, "lit", I(0)),
+    ], props=[prop("p", "a_plus_10", True, ["a"]), prop("q", "p_times_2", True, ["p"])], post_init=["p", "q"], post_set=("a", "inc"))}},
+    # frozen by inheritance: an undecorated subclass, and a decorated subclass that does not repeat frozen=True
+    "frozen_plain_sub": {"root": "PS", "classes": {"P": cls(FROZEN_BASE, frozen=True),
+                                                   "PS": cls(inherited(FROZEN_BASE), frozen=True, bases=["P"], plain=True)}},
+    "frozen_spec_sub": {"root": "PS", "classes": {"P": cls(FROZEN_BASE, frozen=True),
+                                                  "PS": cls(inherited(FROZEN_BASE) + [attr("m", TINT, "lit", I(0))], frozen=True, frozen_arg=False, bases=["P"])}},
+    # a preparer that is not idempotent (inc is +1 mod 3): skipping or repeating preparation shows
+    "prep_nonidem": {"root": "P", "classes": {"P": cls([
+        attr("n", TINT, "lit", I(0), prep="inc"),
+        attr("nums", TL(TINT), "factory", L(), iprep="inc", item="num"),
+    ])}},
     "prepared": {"root": "P", "classes": {"P": cls([
         attr("n", TINT, "lit", I(0), prep="pclip"),
         attr("nums", TL(TINT), "factory", L(), iprep="pclip", item="num"),
@@ -220,7 +248,7 @@ def class_src(cname, c, eager_all=False):
         args = []
         if c["key"]:
             args.append(f"key={c['key']!r}")
-        if c["frozen"]:
+        if c.get("frozen_arg", c["frozen"]):
             args.append("frozen=True")
         if c["dnc"]:
             args.append("do_not_copy=True")
@@ -263,6 +291,11 @@ def class_src(cname, c, eager_all=False):
             continue
         body.append(f"@spec_property(cache={p['cache']!r}, invalidated_by={p['invby']!r})\ndef {p['name']}(self):\n"
                     f"    COUNTS[{p['name']!r}] = COUNTS.get({p['name']!r}, 0) + 1\n    return GETTERS[{p['getter']!r}](self)")
+    if c.get("post_init") or c.get("post_set"):
+        lines_ = ["def __post_init__(self):"] + [f"    self.{p}" for p in c.get("post_init", [])]
+        if c.get("post_set"):
+            lines_.append(f"    self.{c['post_set'][0]} = FN[{c['post_set'][1]!r}](self.{c['post_set'][0]})")
+        body.append("\n".join(lines_))
     if not body:
         body.append("pass")
     for b in body:
